@@ -230,7 +230,7 @@ func (h *clH) livePositions(pool uint64) []clPos {
 func suiteCL(e *Env) {
 	feeRates := []string{"0", "0.003", "0.01", "0.3", "0.000000000000000001"}
 	ratios := []string{"1.0001", "1.01", "1.1", "2"}
-	offsets := []string{"0", "0.5", "0.3", "1"}
+	offsets := []string{"0", "0.5", "0.3", "0.999"}
 	for hi := 0; hi < e.N; hi++ {
 		c, err := sim.New(sim.DefaultConfig())
 		if err != nil {
@@ -246,7 +246,18 @@ func suiteCL(e *Env) {
 		npools := 1 + e.R.N(2)
 		for pi := 0; pi < npools; pi++ {
 			fee, ratio, off := feeRates[e.R.N(len(feeRates))], ratios[e.R.N(len(ratios))], offsets[e.R.N(len(offsets))]
-			if off == "0.3" && (ratio == "2" || ratio == "1.1") {
+			if e.R.N(12) == 0 {
+				// invalid parameters (rejected since MsgCreatePool validates them)
+				switch e.R.N(4) {
+				case 0:
+					ratio = e.R.Pick("1", "0.5", "0", "-2")
+				case 1:
+					fee = e.R.Pick("1", "-0.1", "1.5")
+				case 2:
+					off = e.R.Pick("1", "-0.5", "7")
+				}
+			}
+			if (off == "0.3" || off == "0.999") && (ratio == "2" || ratio == "1.1") {
 				// (1+x)^0.3 by the unmetered PowApprox series needs ~10^6 iterations per tick conversion for x = 1:
 				// slow but terminating; exercised by the C01 check, kept out of the bulk histories
 				off = "0.5"
